@@ -2,12 +2,12 @@ use crate::json::{self, q, Obj};
 use rustc_hir::def::DefKind;
 use rustc_hir::def_id::{DefId, LocalDefId};
 use rustc_middle::mir::*;
-use rustc_middle::ty::print::with_no_trimmed_paths;
+use rustc_middle::ty::print::{with_no_trimmed_paths, with_no_visible_paths};
 use rustc_middle::ty::{self, GenericArgsRef, Ty, TyCtxt, TypingEnv};
 use rustc_span::{ExpnKind, Span};
 
 pub fn path_of<'tcx>(tcx: TyCtxt<'tcx>, did: DefId) -> String {
-  let s = with_no_trimmed_paths!(tcx.def_path_str(did));
+  let s = with_no_visible_paths!(with_no_trimmed_paths!(tcx.def_path_str(did)));
   if did.is_local() {
     format!("{}::{}", tcx.crate_name(did.krate), s)
   } else {
@@ -16,7 +16,7 @@ pub fn path_of<'tcx>(tcx: TyCtxt<'tcx>, did: DefId) -> String {
 }
 
 pub fn path_with_args<'tcx>(tcx: TyCtxt<'tcx>, did: DefId, args: GenericArgsRef<'tcx>) -> String {
-  let s = with_no_trimmed_paths!(tcx.def_path_str_with_args(did, args));
+  let s = with_no_visible_paths!(with_no_trimmed_paths!(tcx.def_path_str_with_args(did, args)));
   if did.is_local() {
     format!("{}::{}", tcx.crate_name(did.krate), s)
   } else {
@@ -25,24 +25,24 @@ pub fn path_with_args<'tcx>(tcx: TyCtxt<'tcx>, did: DefId, args: GenericArgsRef<
 }
 
 pub fn ty_str<'tcx>(ty: Ty<'tcx>) -> String {
-  with_no_trimmed_paths!(ty.to_string())
+  with_no_visible_paths!(with_no_trimmed_paths!(ty.to_string()))
 }
 
 const WRAPPERS: &[&str] = &[
-  "std::boxed::Box",
-  "std::sync::Arc",
-  "std::rc::Rc",
-  "std::sync::Weak",
-  "std::rc::Weak",
-  "std::option::Option",
-  "std::pin::Pin",
-  "std::mem::ManuallyDrop",
-  "std::mem::MaybeUninit",
-  "std::cell::UnsafeCell",
-  "std::ptr::NonNull",
+  "alloc::boxed::Box",
+  "alloc::sync::Arc",
+  "alloc::rc::Rc",
+  "alloc::sync::Weak",
+  "alloc::rc::Weak",
+  "core::option::Option",
+  "core::pin::Pin",
+  "core::mem::manually_drop::ManuallyDrop",
+  "core::mem::maybe_uninit::MaybeUninit",
+  "core::cell::UnsafeCell",
+  "core::ptr::non_null::NonNull",
   "fibre::internal::cache_padded::CachePadded",
   "fibre::internal::CachePadded",
-  "crossbeam_utils::CachePadded",
+  "crossbeam_utils::cache_padded::CachePadded",
 ];
 
 /// Peel references, raw pointers and a fixed set of transparent wrappers down to an ADT path.
@@ -100,6 +100,24 @@ pub fn expn_tag(span: Span) -> Option<String> {
   })
 }
 
+/// Dotted name of a captured place: `self.shared` for a precise capture of (*self).shared.
+pub fn capture_name<'tcx>(tcx: TyCtxt<'tcx>, c: &ty::CapturedPlace<'tcx>) -> String {
+  let mut s = c.var_ident.name.to_string();
+  for (i, proj) in c.place.projections.iter().enumerate() {
+    if let rustc_middle::hir::place::ProjectionKind::Field(f, v) = proj.kind {
+      let before = c.place.ty_before_projection(i);
+      let name = match before.kind() {
+        ty::Adt(def, _) => def.variant(v).fields.iter().nth(f.as_usize()).map(|fd| fd.name.to_string()),
+        _ => None,
+      };
+      s.push('.');
+      s.push_str(&name.unwrap_or_else(|| f.as_usize().to_string()));
+    }
+  }
+  let _ = tcx;
+  s
+}
+
 struct Cx<'a, 'tcx> {
   tcx: TyCtxt<'tcx>,
   body: &'a Body<'tcx>,
@@ -153,7 +171,7 @@ impl<'a, 'tcx> Cx<'a, 'tcx> {
         if let Some(l) = did.as_local() {
           let caps = self.tcx.closure_captures(l);
           if let Some(c) = caps.get(idx) {
-            return format!("^{}", c.to_symbol());
+            return format!("^{}", capture_name(self.tcx, c));
           }
         }
         idx.to_string()
@@ -170,7 +188,7 @@ impl<'a, 'tcx> Cx<'a, 'tcx> {
       o.s("fn", &path_of(self.tcx, *did));
       o.s("full", &path_with_args(self.tcx, *did, args));
     } else {
-      o.s("s", &with_no_trimmed_paths!(format!("{}", c.const_)));
+      o.s("s", &with_no_visible_paths!(with_no_trimmed_paths!(format!("{}", c.const_))));
       o.s("ty", &ty_str(ty));
       // Evaluating a constant that lives inside the body being borrow-checked would
       // re-enter mir_borrowck (query cycle): only evaluate values and foreign named consts.
@@ -251,7 +269,7 @@ impl<'a, 'tcx> Cx<'a, 'tcx> {
             o.s("k", "closure").s("def", &path_of(self.tcx, *did));
             if let Some(l) = did.as_local() {
               let caps = self.tcx.closure_captures(l);
-              o.raw("fields", &json::arr(caps.iter().map(|c| q(&c.to_symbol().to_string()))));
+              o.raw("fields", &json::arr(caps.iter().map(|c| q(&capture_name(self.tcx, c)))));
             }
             o.raw("ops", &opsj);
           }
@@ -524,7 +542,7 @@ pub fn dump_body<'tcx>(tcx: TyCtxt<'tcx>, def: LocalDefId, root: LocalDefId, bod
       if let Some(tr) = tcx.impl_opt_trait_ref(container) {
         let tr = tr.instantiate_identity().skip_norm_wip();
         o.s("impl_trait", &path_of(tcx, tr.def_id));
-        o.s("impl_trait_full", &with_no_trimmed_paths!(tr.to_string()));
+        o.s("impl_trait_full", &with_no_visible_paths!(with_no_trimmed_paths!(tr.to_string())));
       }
     } else if matches!(tcx.def_kind(container), DefKind::Trait) {
       o.s("in_trait", &path_of(tcx, container));
